@@ -21,10 +21,15 @@ def dump_mir(scr):
     out = scr.path("mir.txt")
     env = vlib.env_offline({"CARGO_TARGET_DIR": tdir})
     t0 = time.time()
+    import fcntl
+    lock = open(os.path.join(vlib.CACHE, "mir.lock"), "w")
+    fcntl.flock(lock, fcntl.LOCK_EX)
     with open(out, "w") as fh:
         p = subprocess.run(["cargo", "+nightly", "rustc", "--offline", "--lib", "--", "-Zunpretty=mir",
                             "-C", "debug-assertions=off", "-C", "overflow-checks=on"],
                            cwd=scr.dir, env=env, stdout=fh, stderr=subprocess.PIPE, text=True)
+    fcntl.flock(lock, fcntl.LOCK_UN)
+    lock.close()
     if p.returncode != 0 or os.path.getsize(out) < 1000:
         raise RuntimeError("MIR dump failed:\n" + p.stderr[-3000:])
     return out, time.time() - t0
